@@ -199,6 +199,15 @@ func Run(ctx *common.Ctx) int {
 		lens = append(lens, l)
 	}
 	lens = append(lens, 12500, 125000)
+	// and far beyond: around every power of two up to 2^22 bytes (counters, accumulators and index types
+	// that are wide enough for a 10^6-bit sample need not be wide enough for a stuck source)
+	for k := 13; k <= 22; k++ {
+		p := 1 << uint(k)
+		lens = append(lens, p-1, p, p+1, p+p/16, p+p/3)
+	}
+	if !quick {
+		lens = append(lens, 1<<23, 1<<24, 1<<24+1, 12500000)
+	}
 	for _, l := range lens {
 		for _, b := range []byte{0x00, 0xFF} {
 			var v bool
@@ -210,7 +219,7 @@ func Run(ctx *common.Ctx) int {
 			}
 		}
 	}
-	samples = append(samples, map[string]interface{}{"function": "SingleDetect", "streams": "0x00.. and 0xFF..", "lengths": "every 16..4096, 12500, 125000"})
+	samples = append(samples, map[string]interface{}{"function": "SingleDetect", "streams": "0x00.. and 0xFF..", "lengths": "every 16..4096, 12500, 125000, and 2^k-1, 2^k, 2^k+1, 2^k(1+1/16), 2^k(1+1/3) for k=13..22 (thorough also 2^23, 2^24, 12500000)"})
 	cov := common.Coverage{
 		"evaluations":         int(evals),
 		"distinct_nontrivial": len(streams) + 2,
